@@ -10,9 +10,7 @@ def run(res, pool, tier, seed):
     if tier == "quick":
         jobs = [dict(module="MC_Flat.tla", tag="lat1",
                      constants=dict(B=1, KA=set(FLAT), KB=set(FLAT), SEED=seed % 1000, NSHARD=1, NBORING=12),
-                     invariants=INVS, timeout=900),
-                dict(module="MC_Flat.tla", tag="lat2-sample", invariants=["Typed", "L2Refines", "Emit"], timeout=900,
-                     constants=dict(B=2, KA=set(FLAT), KB=set(FLAT), SEED=seed % 1000, NSHARD=400, NBORING=80))]
+                     invariants=INVS, timeout=900)]
         res.exhaustive = False
     else:
         jobs = [dict(module="MC_Flat.tla", tag="lat1",
